@@ -594,7 +594,80 @@ T_INTER = ("quick, plus: all 1540 multisets of 3 rules x the 18 DFAs with delta(
            "27 DFAs at optim 7 and in reversed order at optim 0; 2 rules x optim 1-6 x 6 DFAs; all 2415 pairs "
            "of rules over {S,A,B}x{f,g}x{a,epsilon} x 6 DFAs; 2 rules x all 36 DFAs without start state")
 
+# ----------------------------------------------------------------------------------------
+# chains of productions: the marking fixpoint must be reached whatever the order of the rules
+
+CHAIN_BASE = [("prod", "S", "A", "g"), ("prod", "A", "C", "f"), ("dup", "C", "D", "E"), ("end", "D", "d"),
+              ("end", "E", "e"), ("cons", "g", "Q", "D"), ("cons", "f", "Q", "E")]
+# variations of single rules (index into CHAIN_BASE, replacement or None = rule removed)
+CHAIN_VARIANTS = [None, (4, None), (2, ("dup", "C", "D", "D")), (1, ("prod", "A", "C", "g")),
+                  (5, ("cons", "g", "C", "D")), (6, ("cons", "f", "C", "E")), (3, ("end", "C", "d")),
+                  (0, ("prod", "S", "C", "g"))]
+
+
+def _lib_rule(r):
+    if r[0] == "end":
+        return EndRule(r[1], r[2])
+    if r[0] == "prod":
+        return ProductionRule(r[1], r[2], r[3])
+    if r[0] == "cons":
+        return ConsumptionRule(r[1], r[2], r[3])
+    return DuplicationRule(r[1], r[2], r[3])
+
+
+def _chain_oracle(args, obs):
+    rules, order_desc = args
+    want = O.is_empty([tuple(r) for r in rules])
+    fails = []
+    for op, res in obs:
+        if res[0] == "exc":
+            fails.append(chx.exc_failure(op, res, tags=["chain_family"]))
+        elif bool(res[1]) != want:
+            fails.append({"kind": "verdict", "op": op, "tags": ["chain_family"],
+                          "detail": "%s = %r for the rule order %r; the language is %s" % (
+                              op, res[1], rules, "empty" if want else "not empty")})
+    return True, fails, {"rules": rules, "order": order_desc, "empty": want}
+
+
+def c17_chain(rot: int, i: int, j: int, variant: int, optim: int) -> bool:
+    """
+    pre: pinned(rot=rot, variant=variant, optim=optim)
+    pre: ((0 <= rot) & (rot < 7)) & ((0 <= i) & (i <= j)) & (j < 7) & ((0 <= variant) & (variant < 8))
+    pre: (0 <= optim) & (optim < 8)
+    post: _
+    """
+    raw = (rot, i, j, variant, optim)
+    rr, ii, jj = enc.pick(rot, 7), enc.pick(i, 7), enc.pick(j, 7)
+    var = CHAIN_VARIANTS[enc.pick(variant, 8)]
+    op_ = enc.pick(optim, 8)
+    rules = list(CHAIN_BASE)
+    if var is not None:
+        if var[1] is None:
+            del rules[var[0]]
+        else:
+            rules[var[0]] = var[1]
+    n = len(rules)
+    rules = rules[rr % n:] + rules[:rr % n]
+    if ii < n and jj < n:
+        rules[ii], rules[jj] = rules[jj], rules[ii]
+    chx.enter("c17_chain", raw)
+    obs = []
+
+    def verdict():
+        return IndexedGrammar(Rules([_lib_rule(r) for r in rules], op_)).is_empty()
+    obs.append(("is_empty", chx.guarded(verdict)))
+    return chx.judge("C17", "c17_chain", raw, (rules, [rr, ii, jj]), obs, _chain_oracle)
+
+
 CONDS = [
+    Cond("C17", c17_chain, lambda tier: (product_pins(rot=list(range(7)), variant=list(range(8)), optim=[0])
+                                         if tier == "quick" else
+                                         product_pins(rot=list(range(7)), variant=list(range(8)), optim=[0, 2, 3, 6, 7])),
+         {"quick": "the 7-rule chain S->A[g], A->C[f], C->D E, D->d, E->e, (g,Q,D), (f,Q,E) and 7 one-rule variants of "
+                   "it, listed in 7 rotations x every transposition of two rules (196 orders), optim 0: is_empty() "
+                   "against O-IG",
+          "thorough": "also optim 2, 3, 6, 7"},
+         FUNCS, "always", assumptions=ASSUME),
     Cond("C17", c17_verdict, _shards_verdict, {"quick": Q_VERDICT, "thorough": T_VERDICT},
          FUNCS, "grammar has an end rule, a rule with S on the left and a non-end rule",
          stubs=[STUB_TEXT], assumptions=ASSUME, shard_timeout={"quick": 1500, "thorough": 6000}),
